@@ -499,7 +499,7 @@ def judge_step(label, before, after, out, rec, extra_conds=None, definedness=Fal
             except Exception:
                 oka = False
             if okb and oka:
-                out['cex'].append(dict(rec, kind='step-loses-definedness:' + label.split('(')[0], sig='%s|%s' % (label, before), before=str(before),
+                out['cex'].append(dict(rec, kind='step-loses-definedness:' + label.split('(')[0], sig='%s|%s' % (label, before), before=str(before), after=str(after),
                                        detail='%s on %s returns %s, which has no real value at %s although the input evaluates to %.9g there' % (label, before, after, vals, x)))
     elif st == 'unknown':
         out['inconclusive'] += 1
@@ -769,6 +769,31 @@ def idem_shape(ne, ne2):
         st, _ = compare(ne, ne2, [])
         if st == 'equal':
             return 'fraction-times-sum'
+
+    def terms(t, sign=1):
+        # signed additive terms
+        if t.is_op() and t.op == '+' and len(t.args) == 2:
+            return terms(t.args[0], sign) + terms(t.args[1], sign)
+        if t.is_op() and t.op == '-' and len(t.args) == 2:
+            return terms(t.args[0], sign) + terms(t.args[1], -sign)
+        if t.is_op() and t.op == '-' and len(t.args) == 1:
+            return terms(t.args[0], -sign)
+        return [(sign, str(t))]
+    if sorted(terms(ne)) == sorted(terms(ne2)):
+        return 'terms-reordered'
+
+    def base_of(t):
+        return t.args[0] if (t.is_op() and t.op == '^' and t.args[1].is_const()) else t
+
+    def has_split_power(t):
+        # a product of two powers of one base (x * x, x * x ^ 2) that a further round merges into a single power
+        if t.is_op() and t.op == '*' and len(t.args) == 2 and base_of(t.args[0]) == base_of(t.args[1]) and not base_of(t.args[0]).is_const():
+            return True
+        return any(has_split_power(x) for x in (t.args if (t.is_op() or t.is_fun()) else []))
+    if has_split_power(ne) and not has_split_power(ne2):
+        st, _ = compare(ne, ne2, [])
+        if st == 'equal':
+            return 'powers-merged'
     return 'other'
 
 
